@@ -66,6 +66,9 @@ def construction_rules(ctx, R, E):
     acc.rule_accessors(ctx, R)
     acc.rule_kind_pred(ctx, R)
     lazy.rule_lazy_ctor(ctx, R, rules={"LAZY-CTOR"})
+    # "every automaton" includes one restored from its image: the round-trip identity (C09's rules) carries values, lengths, tables
+    # and the match kind over unchanged
+    ser.rule_ser(ctx, R)
 
 
 def run_C01(ctx, R):
@@ -127,6 +130,11 @@ def run_C06(ctx, R):
     lazy.rule_lazy_adapt(ctx, R)
     lazy.rule_lazy_ctor(ctx, R, rules={"LAZY-CTOR"})
     lazy.rule_dec(ctx, R)
+    # "haystack[start..end] is byte-for-byte a registered pattern" on the char-wise side: the code mapper is injective on pattern
+    # characters and maps every other character to "no transition" (two characters sharing a code make a foreign text match)
+    pure.rule_mapper(ctx, R)
+    da.rule_dispatch(ctx, R, E.NR, E.BR, rules={"B-MAP"})
+    search.rule_trans(ctx, R)
     search.rule_iter_leftmost(ctx, R, rules={"ITER-LM", "SAFE-STR", "ITER-LABEL"})
 
 
@@ -177,6 +185,11 @@ def run_C08(ctx, R):
     da.rule_placement(ctx, R, E.NR, E.BR, rules={"DA-EDGE", "DA-BASE", "B-BASE", "B-FAIL", "B-OPOS"})
     da.rule_find_base(ctx, R, E.NR, E.BR)       # the char-wise table must be collision-free for the two variants to agree
     da.rule_array_growth(ctx, R, E.NR, E.BR)
+    # ... which also rests on the shared helper's free-list / block-eviction discipline (both builders call the same helper, a
+    # protocol change adapted in one sibling only breaks the other)
+    helper.rule_helper(ctx, R)
+    # "every search method" includes searching a char-wise automaton restored from its image: mapper pages, states, outputs
+    ser.rule_ser(ctx, R)
 
 
 def run_C09(ctx, R):
@@ -187,8 +200,10 @@ def run_C09(ctx, R):
 
 def run_C10(ctx, R):
     E = Env(ctx, R)
-    nfa.rule_add(ctx, R, E.NR, rules={"VALID-DUP", "VALID-EMPTY", "VALID-NONEMPTY"})
-    da.rule_dispatch(ctx, R, E.NR, E.BR, rules={"VALID-NONEMPTY", "VALID-PROP"})
+    # (the whole add group: the duplicate / shadow verdicts are read off the node the walk ends at, so they are only as right as
+    # the walk — lookups in the edge map from ROOT, a node created exactly when the child is missing)
+    nfa.rule_add(ctx, R, E.NR)
+    da.rule_dispatch(ctx, R, E.NR, E.BR, rules={"VALID-NONEMPTY", "VALID-PROP", "VALID-SCALE"})
     da.rule_build_entry(ctx, R, E.NR, E.BR, rules={"VALID-CONV", "VALID-ENTRY", "VALID-PROP"})
     misc.rule_valid_kind(ctx, R, E.NR, E.BR)
     # "never panics": the free-list / growth discipline whose assertions must never fire for valid input
@@ -199,6 +214,8 @@ def run_C10(ctx, R):
     # range test rejects valid collections with a scale error
     with ctx.only({"ACC-PACK"}):
         acc.rule_accessors(ctx, R)
+    # "all builder settings ... never panics": the knob setter refuses exactly the documented value (0)
+    da.rule_builder_config(ctx, R)
 
 
 def run_C11(ctx, R):
@@ -209,6 +226,10 @@ def run_C11(ctx, R):
     da.rule_sanitiser(ctx, R, E.NR, E.BR)
     da.rule_placement(ctx, R, E.NR, E.BR, rules={"KNOB-SAN", "DA-BASE", "B-EXT"})
     da.rule_find_base(ctx, R, E.NR, E.BR)
+    # "... and the other properties (memory safety, state count) continue to hold": the reported state count comes from the NFA,
+    # not from the knob-dependent array layout
+    da.rule_build_entry(ctx, R, E.NR, E.BR, rules={"STAT-NS"})
+    misc.rule_stat(ctx, R)
 
 
 def run_C12(ctx, R):
@@ -245,6 +266,9 @@ def run_C14(ctx, R):
     # PERM-OUT / PERM-IDS: outputs are filled in queue order, the id-ordered pass writes only through state_id_map
     nfa.rule_outputs_pass(ctx, R, E.NR)
     nfa.rule_fail_passes(ctx, R, E.NR)
+    # the trie is a function of the pattern SET: a child is looked up in / created through the ordered edge map only, never through a
+    # cache of the previous registration
+    nfa.rule_add(ctx, R, E.NR)
     da.rule_placement(ctx, R, E.NR, E.BR, rules={"B-FAIL", "B-OPOS", "DA-EDGE", "DA-BASE"})
 
 
@@ -262,6 +286,8 @@ def run_C15(ctx, R):
     # ... and on the helper's slot bookkeeping (a slot taken without being flagged used is stamped over by the sanitiser: the
     # state placed there is counted but unreachable)
     helper.rule_helper(ctx, R)
+    # the statistics of a restored automaton: num_states and the tables travel in the image
+    ser.rule_ser(ctx, R)
 
 
 def run_C16(ctx, R):
